@@ -38,8 +38,56 @@ def _space_branches(fn: Fn, var: str) -> Tuple[Dict[str, ast.AST], Optional[List
     return kinds, last_else
 
 
-def _raises(body: Optional[List[ast.stmt]]) -> bool:
-    return bool(body) and any(isinstance(s, ast.Raise) for s in body)
+def _default_exits(fn: Fn, var: str, kind: Optional[str] = None) -> List[ast.stmt]:
+    """What a space of kind `kind` runs into (the tests that name spaces.<kind> are left by their true edge); with kind=None, what a space of none of the tested kinds runs into: the `return` / `raise` statements on the paths that leave every `if isinstance(<var>, ...)` test by
+    its false edge.  The default of a dispatcher is a set of paths, not a piece of syntax: a final `else:` block, the statements that follow a chain of
+    `if K: return ...` guard clauses and a chain that is continued by a second chain are the same program.  (A dispatch spelled as a conditional expression
+    is not a test of the control-flow graph: the statement that contains it is an exit of the path through it.)"""
+    cfg = CFG(fn.node)
+    seen: Set[int] = set()
+    out: List[ast.stmt] = []
+    todo = [cfg.entry]
+    while todo:
+        n = todo.pop()
+        if n.id in seen:
+            continue
+        seen.add(n.id)
+        if n.kind == "stmt" and isinstance(n.ast, (ast.Return, ast.Raise)):
+            out.append(n.ast)
+            continue
+        nxt = [x for x in n.succ if x.id not in n.exc_succ]
+        if n.kind == "test" and isinstance(n.stmt, ast.If):
+            t, pol = n.ast, True
+            while isinstance(t, ast.UnaryOp) and isinstance(t.op, ast.Not):
+                t, pol = t.operand, not pol
+            if isinstance(t, ast.Call) and call_name(t) == "isinstance" and len(t.args) == 2 and dotted(t.args[0]) == var:
+                false_side = [n.false_succ] if n.false_succ is not None else [x for x in nxt if x is not n.true_succ]
+                true_side = [n.true_succ] if n.true_succ is not None else []
+                tested = {dotted(x) for x in (t.args[1].elts if isinstance(t.args[1], ast.Tuple) else [t.args[1]])}
+                holds = kind is not None and f"spaces.{kind}" in tested
+                nxt = true_side if holds == pol else false_side
+        todo += nxt
+    return out
+
+
+def _subst(cfg: CFG, at: Optional[Node], e: Optional[ast.AST], depth: int = 0) -> Optional[ast.AST]:
+    """`e` as a reader sees it who looks through the temporaries: every local with exactly one reaching plain binding at `at` is replaced by the bound
+    expression (itself read at the binding, repeatedly).  Parameters, loop / comprehension variables and locals with several bindings stand for themselves."""
+    if e is None or at is None:
+        return e
+    import copy
+    own = {x.id for c in ast.walk(e) if isinstance(c, ast.comprehension) for x in ast.walk(c.target) if isinstance(x, ast.Name)}
+
+    class _T(ast.NodeTransformer):
+        def visit_Name(self, n: ast.Name) -> ast.AST:
+            if isinstance(n.ctx, ast.Load) and n.id not in own and depth < 6:
+                defs = cfg.defs_reaching(at, n.id)
+                if len(defs) == 1 and defs[0].kind == "stmt" and defs[0] is not at:
+                    v = cfg.value_of_def(defs[0], n.id)
+                    if v is not None and not isinstance(v, ast.IfExp):
+                        return _subst(cfg, defs[0], v, depth + 1)
+            return n
+    return _T().visit(copy.deepcopy(e))
 
 
 # ------------------------------------------------------------------------------------------------ one verdict for both spellings of a choice
@@ -435,8 +483,10 @@ def _dispatch(ck: Check, repo: Repo) -> None:
         (repo.fn(BASE, "EvolvableAlgorithm.get_action_dim"), "action_space", False, True),
     ]
     for fn, var, containers, must_raise in table:
-        kinds, last_else = _space_branches(fn, var)
-        default_ok = last_else is not None and not _raises(last_else)
+        kinds, _ = _space_branches(fn, var)
+        exits = _default_exits(fn, var)
+        rejects = any(isinstance(x, ast.Raise) for x in exits)
+        default_ok = bool(exits) and not rejects
         ck.floor("C15.1", len(kinds), 2, f"{fn.qualname}: space kinds dispatched on")
         for k in sorted(LEAF):
             ck.ob("C15.1", fn, kinds.get(k).test if k in kinds else fn.node, k in kinds or default_ok,
@@ -446,7 +496,7 @@ def _dispatch(ck: Check, repo: Repo) -> None:
             for k in sorted(CONTAINER):
                 ck.ob("C15.1", fn, kinds.get(k).test if k in kinds else fn.node, k in kinds, f"{fn.qualname}: handles {k} spaces member by member", construct=f"{fn.qualname}: kind {k}")
         if must_raise:
-            ck.ob("C15.1", fn, fn.node, _raises(last_else), f"{fn.qualname}: an unsupported space kind is rejected with an error", construct=f"{fn.qualname}: final else")
+            ck.ob("C15.1", fn, fn.node, rejects, f"{fn.qualname}: an unsupported space kind is rejected with an error", construct=f"{fn.qualname}: final else")
     po = repo.fn(AU, "preprocess_observation")
     src = ast.unparse(po.node)
     # every leaf path ends in maybe_add_batch_dim with that kind's shape
@@ -487,9 +537,15 @@ def _rank_lint(ck: Check, repo: Repo) -> None:
     for modname in (AU, BASE, "agilerl.utils.evolvable_networks"):
         m = repo.mod(modname)
         for f in list(m.functions.values()) + [x for c in m.classes.values() for x in c.methods.values()]:
+            cfg: Optional[CFG] = None
             for n in walk_no_nested(f.node):
                 if isinstance(n, ast.Compare) and len(n.ops) == 1:
                     sides = [n.left, n.comparators[0]]
+                    # a rank or a shape kept in a single-definition temporary (`ndim = len(x.shape)`, `shp = x.shape ... len(shp)`) is the same operand
+                    if any(isinstance(x, ast.Name) for s in sides for x in ([s] + list(s.args) if isinstance(s, ast.Call) and call_name(s) == "len" else [s])):
+                        cfg = cfg or CFG(f.node)
+                        at = cfg.node_of(n)
+                        sides = [_subst(cfg, at, s) for s in sides]
                     is_rank = [isinstance(s, ast.Call) and call_name(s) == "len" and s.args and isinstance(s.args[0], ast.Attribute) and s.args[0].attr == "shape" for s in sides]
                     if not any(is_rank):
                         continue
@@ -722,36 +778,169 @@ def _image(ck: Check, repo: Repo) -> None:
     ck.ob("C15.4", po, calls[0] if calls else po.node, ok, "normalisation is applied exactly to rank-3 Box observations when normalize_images is on, with the space of that observation")
 
 
+def _guarded_values(cfg: CFG, r: Node) -> List[Tuple[Optional[ast.AST], List[Tuple[ast.AST, bool, Optional[Node]]]]]:
+    """(value, guards) of everything the return statement `r` may hand back: a returned local stands for the values of its reaching bindings (each under the
+    guards of its binding), a conditional expression for its arms; the guards are (test, polarity, test node of the graph or None for the test of a
+    conditional expression).  `if c: x = f(x)` ... `return x` and `if c: return f(x)` hand back the same values under the same guards."""
+    def guards(x: ast.AST, n: Node) -> List[Tuple[ast.AST, bool, Optional[Node]]]:
+        out: List[Tuple[ast.AST, bool, Optional[Node]]] = list(cfg.guards_at(n))
+        for root in n.exprs():
+            for t, pol in _arm_tests(root, x):
+                while isinstance(t, ast.UnaryOp) and isinstance(t.op, ast.Not):
+                    t, pol = t.operand, not pol
+                out.append((t, pol, None))
+        return out
+
+    out: List[Tuple[Optional[ast.AST], List[Tuple[ast.AST, bool, Optional[Node]]]]] = []
+    for v in _arms(r.ast.value):
+        if isinstance(v, ast.Name):
+            for d in cfg.defs_reaching(r, v.id):
+                dv = cfg.value_of_def(d, v.id) if d.kind == "stmt" else None
+                out += [(a, guards(a, d)) for a in _arms(dv)] if dv is not None else [(None, list(cfg.guards_at(d)) if d.kind == "stmt" else [])]
+        else:
+            out.append((v, guards(v, r)))
+    return out
+
+
 def _batch_dim(ck: Check, repo: Repo) -> None:
     fn = repo.fn(AU, "maybe_add_batch_dim")
     cfg = CFG(fn.node)
     tb = TermBuilder(repo, fn, cfg=cfg, depth=0)
-    tests = [n for n in cfg.live_nodes() if n.kind == "test" and isinstance(n.ast, ast.Compare) and "len(obs.shape)" in ast.unparse(n.ast)]
+    p_obs, p_shape = fn.named_params[0], fn.named_params[1]
+    # the tests that compare the observation's rank with something (the ranks may be kept in temporaries: terms look through them)
     offs = {}
-    for t in tests:
-        R = tb.term(ast.parse("len(space_shape)", mode="eval").body, t)
-        O = tb.term(ast.parse("len(obs.shape)", mode="eval").body, t)
+    for t in [n for n in cfg.live_nodes() if n.kind == "test" and isinstance(n.ast, ast.Compare) and len(n.ast.ops) == 1]:
+        R = tb.term(ast.parse(f"len({p_shape})", mode="eval").body, t)
+        O = tb.term(ast.parse(f"len({p_obs}.shape)", mode="eval").body, t)
         l, r = tb.term(t.ast.left, t), tb.term(t.ast.comparators[0], t)
-        d = (r - R).const_value() if l == O else ((l - R).const_value() if r == O else None)
+        if l != O and r != O:
+            continue
+        d = (r - R).const_value() if l == O else (l - R).const_value()
         offs[int(d) if d is not None else None] = (type(t.ast.ops[0]).__name__, t)
     ck.ob("C15.5", fn, fn.node, set(offs) == {0, 1, 2}, "the observation's rank is compared with the space's rank, rank + 1 and rank + 2", detail=str({k: v[0] for k, v in offs.items()}),
           construct="maybe_add_batch_dim cases")
+    rets = [n for n in cfg.live_nodes() if n.kind == "stmt" and isinstance(n.ast, ast.Return) and n.ast.value is not None]
+    handed = [(v, g) for r in rets for v, g in _guarded_values(cfg, r)]
     if set(offs) == {0, 1, 2}:
         t0, t1, t2 = offs[0][1], offs[1][1], offs[2][1]
-        b0 = ast.unparse(ast.Module(body=t0.stmt.body, type_ignores=[]))
-        b2 = ast.unparse(ast.Module(body=t2.stmt.body, type_ignores=[]))
-        b1 = ast.unparse(ast.Module(body=t1.stmt.body, type_ignores=[]))
-        ck.ob("C15.5", fn, t0.ast, offs[0][0] == "Eq" and "np.expand_dims(obs, 0)" in b0 and "obs.unsqueeze(0)" in b0, "rank == space rank: a leading batch axis of size 1 is added")
-        ck.ob("C15.5", fn, t2.ast, offs[2][0] == "Eq" and "reshape(-1, *space_shape)" in b2 and "view(-1, *space_shape)" in b2, "rank == space rank + 2: (step, env) axes are merged into one batch axis")
-        ck.ob("C15.5", fn, t1.ast, offs[1][0] == "NotEq" and "raise ValueError" in b1, "any other rank than space rank + 1 is rejected")
-    rets = [n for n in cfg.live_nodes() if n.kind == "stmt" and isinstance(n.ast, ast.Return)]
-    ck.ob("C15.5", fn, rets[0].ast if rets else fn.node, bool(rets) and all(dotted(r.ast.value) == "obs" for r in rets), "the (possibly reshaped) observation is returned")
+        # what is handed back when the test holds: the values bound / returned under the test (array and tensor spelling of the same operation)
+        under = lambda t: {ast.unparse(v) for v, g in handed if v is not None and any(tn is t and pol for _, pol, tn in g)}
+        ck.ob("C15.5", fn, t0.ast, offs[0][0] == "Eq" and under(t0) == {f"np.expand_dims({p_obs}, 0)", f"{p_obs}.unsqueeze(0)"}, "rank == space rank: a leading batch axis of size 1 is added",
+              detail=str(sorted(under(t0))))
+        ck.ob("C15.5", fn, t2.ast, offs[2][0] == "Eq" and under(t2) == {f"{p_obs}.reshape(-1, *{p_shape})", f"{p_obs}.view(-1, *{p_shape})"}, "rank == space rank + 2: (step, env) axes are merged into one batch axis",
+              detail=str(sorted(under(t2))))
+        rejected = any(n.kind == "stmt" and isinstance(n.ast, ast.Raise) and "ValueError" in ast.unparse(n.ast) and any(tn is t1 and pol for _, pol, tn in cfg.guards_at(n)) for n in cfg.live_nodes())
+        ck.ob("C15.5", fn, t1.ast, offs[1][0] == "NotEq" and rejected, "any other rank than space rank + 1 is rejected")
+    # every value handed back is the observation itself or one operation applied to it (first argument / receiver), never something else
+    def _of_obs(v: Optional[ast.AST]) -> bool:
+        if v is None or (isinstance(v, ast.Name) and v.id == p_obs):
+            return True  # the parameter as handed in
+        while isinstance(v, ast.Call):  # f(obs, ...) / obs.m(...) / obs.m(...).n(...): operations applied to the observation
+            recv = v.func.value if isinstance(v.func, ast.Attribute) else None
+            if recv is not None and dotted(recv).split(".")[0] in ("np", "torch"):
+                recv = None
+            v = recv if recv is not None else (v.args[0] if v.args else None)
+        return isinstance(v, ast.Name) and v.id == p_obs
+    ck.ob("C15.5", fn, rets[0].ast if rets else fn.node, bool(rets) and all(_of_obs(v) for v, _ in handed), "the (possibly reshaped) observation is returned")
     gv = repo.fn(AU, "get_vect_dim")
     src = ast.unparse(gv.node)
-    ck.ob("C15.5", gv, gv.node, _has_choice(src, '$array_shape[0] if len($array_shape) > len($observation_space.shape) else 1'), "a vectorised observation is recognised by having more axes than its space",
-          construct="get_vect_dim generic branch")
+    not_by_rank = _more_axes_choice(gv)
+    ck.ob("C15.5", gv, gv.node, not not_by_rank, "a vectorised observation is recognised by having more axes than its space",
+          detail=f"for {', '.join(not_by_rank)} spaces the answer is not `shape[0] if len(shape) > len({gv.named_params[1]}.shape) else 1` of the observation's shape", construct="get_vect_dim generic branch")
     ck.ob("C15.5", gv, gv.node, has(src, 'get_vect_dim($first_obs, $observation_space[$first_key])') and has(src, 'get_vect_dim($observation[0], $observation_space[0])'),
           "for Dict / Tuple observations the member and its own sub-space decide", construct="get_vect_dim containers")
+
+
+def _more_axes_choice(gv: Fn) -> List[str]:
+    """The leaf kinds for which get_vect_dim does NOT answer with the choice `S[0] if len(S) > len(<space>.shape) else 1`: on the paths a space of that kind
+    takes (an explicit branch or the default: an `else`, the statements after the guard clauses) every returned value must be an arm of such a choice, written
+    as a conditional expression or as an if / else over two returns, the comparison either way round, the shape S and the two ranks spelled out or kept in
+    single-definition temporaries.  <space> is the function's own space parameter: a rank obtained in another way (a helper's idea of the shape) is not the
+    rank of the space."""
+    space = gv.named_params[1]
+    cfg = CFG(gv.node)
+    cands: List[ast.IfExp] = []
+    for n in walk_no_nested(gv.node):
+        f = n if isinstance(n, ast.Return) else (_folded([n]) if isinstance(n, ast.If) else None)
+        todo = [f.value] if isinstance(f, ast.Return) and f.value is not None else []
+        while todo:
+            c = todo.pop()
+            if isinstance(c, ast.IfExp):
+                cands.append(c)
+                todo += [c.body, c.orelse]
+    covered: Set[int] = set()
+    for c in cands:
+        t, pol, a, b = c.test, True, c.body, c.orelse
+        while isinstance(t, ast.UnaryOp) and isinstance(t.op, ast.Not):
+            t, pol = t.operand, not pol
+        if not (isinstance(t, ast.Compare) and len(t.ops) == 1):
+            continue
+        op = type(t.ops[0]).__name__
+        neg = {"Gt": "LtE", "Lt": "GtE", "GtE": "Lt", "LtE": "Gt"}
+        if not pol:
+            op = neg.get(op, "?")  # `x if not (p <= q) else y` reads `x if p > q else y`
+        if op in ("LtE", "GtE"):
+            op, a, b = neg[op], b, a  # `y if p <= q else x` reads `x if p > q else y`
+        if op not in ("Gt", "Lt"):
+            continue
+        big, small = (t.left, t.comparators[0]) if op == "Gt" else (t.comparators[0], t.left)
+        at = cfg.node_of(t)
+        sb, ss = _subst(cfg, at, big), _subst(cfg, at, small)
+        sa = _subst(cfg, cfg.node_of(a), a)
+        if sb is None or ss is None or sa is None or const_value(b) != 1:
+            continue
+        if ast.unparse(ss) == f"len({space}.shape)" and isinstance(sb, ast.Call) and call_name(sb) == "len" and len(sb.args) == 1 and ast.unparse(sa) == f"{ast.unparse(sb.args[0])}[0]":
+            covered |= {id(a), id(b)}
+    bad: List[str] = []
+    for k in sorted(LEAF):
+        exits = [x for x in _default_exits(gv, space, k) if isinstance(x, ast.Return) and x.value is not None]
+        if not exits or not all(id(v) in covered for x in exits for v in _arms(x.value)):
+            bad.append(k)
+    return bad
+
+
+def _keyed_stores(root: ast.AST, call: ast.Call) -> List[Tuple[ast.AST, ast.AST, ast.AST, Optional[ast.AST]]]:
+    """The iterations that compute `call` once per item: (node, target, iterable, key under which the result of the call is stored) for every for-loop with
+    a `D[key] = ... call ...` store in its body and every dict comprehension with `call` in its value (`key: ... call ... for target in iterable`); the key is
+    None when the result is not stored under a key.  The loop that fills a dictionary and the comprehension that builds it are the same iteration."""
+    out: List[Tuple[ast.AST, ast.AST, ast.AST, Optional[ast.AST]]] = []
+    for n in ast.walk(root):
+        if isinstance(n, ast.For) and any(x is call for x in ast.walk(n)):
+            keys = [st.targets[0].slice for st in ast.walk(n) if isinstance(st, ast.Assign) and isinstance(st.targets[0], ast.Subscript) and isinstance(st.targets[0].value, ast.Name)
+                    and any(x is call for x in ast.walk(st.value))]
+            out.append((n, n.target, n.iter, keys[0] if keys else None))
+        elif isinstance(n, (ast.ListComp, ast.SetComp, ast.GeneratorExp, ast.DictComp)) and any(x is call for x in ast.walk(n)):
+            stored = isinstance(n, ast.DictComp) and any(x is call for x in ast.walk(n.value))
+            out += [(n, g.target, g.iter, n.key if stored else None) for g in n.generators]
+    return out
+
+
+def _callee(repo: Repo, fn: Fn, c: ast.Call) -> Optional[Fn]:
+    """The function of the package that the call `c` inside `fn` runs: a method of fn's own class called through the instance, the class or `cls`
+    (`self.m(...)`, `C.m(...)`: a static method is reached either way), otherwise whatever the name resolves to in fn's module."""
+    nm = call_name(c)
+    parts = nm.split(".")
+    if fn.cls is not None and len(parts) == 2 and parts[0] in ((fn.params[0] if fn.params and not fn.has_decorator("staticmethod") else "self"), "cls", fn.cls.name):
+        return fn.cls.methods.get(parts[1])
+    r = repo.resolve(fn.mod, nm) if nm and "?" not in nm else None
+    return r if isinstance(r, Fn) else None
+
+
+def _join_sites(repo: Repo, fn: Fn, outer: Optional[List[Tuple[str, bool]]] = None, depth: int = 0) -> List[Tuple[str, ast.Call, Fn, List[Tuple[str, bool]]]]:
+    """(torch.stack | torch.cat, call, function it is written in, guards) for every joining call that `fn` runs: written in `fn` itself or in a private helper
+    of the package that `fn` calls (the helper's sites are listed once per call site, under the guards of that call site followed by their own guards inside the
+    helper).  Three copies of `stack if image else cat` and three calls of one helper that makes the choice are the same program."""
+    cfg = CFG(fn.node)
+    out: List[Tuple[str, ast.Call, Fn, List[Tuple[str, bool]]]] = []
+    for c in calls_in(fn.node):
+        g = list(outer or []) + [(ast.unparse(gg), pol) for gg, pol in _expr_guards(cfg, c)]
+        if call_name(c) in ("torch.stack", "torch.cat"):
+            out.append((call_name(c), c, fn, g))
+        elif depth < 2:
+            callee = _callee(repo, fn, c)
+            if callee is not None and callee is not fn and callee.name.startswith("_") and not callee.name.startswith("__"):
+                out += _join_sites(repo, callee, g, depth + 1)
+    return out
 
 
 def _agents(ck: Check, repo: Repo) -> None:
@@ -759,40 +948,48 @@ def _agents(ck: Check, repo: Repo) -> None:
         fn = repo.fn(BASE, q)
         calls = [c for c in calls_in(fn.node) if call_name(c) == "preprocess_observation"]
         ok = len(calls) == 1
+        its: List[Tuple[ast.AST, ast.AST, ast.AST, Optional[ast.AST]]] = []
         if ok:
             c = calls[0]
             if "MultiAgent" in q:
-                # the space is looked up with the loop's own key variable (for <key>, <obs> in observation.items())
-                lp = [n for n in walk_no_nested(fn.node) if isinstance(n, ast.For) and isinstance(n.target, ast.Tuple) and isinstance(n.target.elts[0], ast.Name)]
-                space_expr = f"self.observation_space.get({lp[0].target.elts[0].id})" if lp else space_expr
+                # the space is looked up with the iteration's own key variable (for <key>, <obs> in observation.items(): loop or comprehension)
+                its = [x for x in _keyed_stores(fn.node, c) if isinstance(x[1], ast.Tuple) and len(x[1].elts) == 2 and isinstance(x[1].elts[0], ast.Name)]
+                space_expr = f"self.observation_space.get({its[0][1].elts[0].id})" if its else space_expr
             ok = ast.unparse(get_kw(c, "observation_space", 1)) == space_expr and dotted(get_kw(c, "device", 2)) == "self.device" and dotted(get_kw(c, "normalize_images", 3)) == "self.normalize_images"
         ck.ob("C15.6", fn, calls[0] if calls else fn.node, ok, f"{q}: delegates to the shared preprocessing with the agent's own space, device and normalisation flag")
         if "MultiAgent" in q and ok:
-            loops = [n for n in walk_no_nested(fn.node) if isinstance(n, ast.For)]
-            okl = len(loops) == 1 and ast.unparse(loops[0].iter) == "observation.items()" and dotted(get_kw(calls[0], "observation", 0)) == dotted(loops[0].target.elts[1]) \
-                and any(isinstance(st, ast.Assign) and isinstance(st.targets[0], ast.Subscript) and isinstance(st.targets[0].value, ast.Name)
-                        and dotted(st.targets[0].slice) == dotted(loops[0].target.elts[0]) and any(x is calls[0] for x in ast.walk(st.value)) for st in ast.walk(loops[0]))
-            ck.ob("C15.6", fn, loops[0] if loops else fn.node, okl, f"{q}: every agent's observation is prepared on its own and stored under that agent's id")
+            every = _keyed_stores(fn.node, calls[0])
+            okl = len(every) == 1 and len(its) == 1 and ast.unparse(its[0][2]) == "observation.items()" and dotted(get_kw(calls[0], "observation", 0)) == dotted(its[0][1].elts[1]) \
+                and its[0][3] is not None and dotted(its[0][3]) == dotted(its[0][1].elts[0])
+            ck.ob("C15.6", fn, every[0][0] if every else fn.node, okl, f"{q}: every agent's observation is prepared on its own and stored under that agent's id")
     ip = repo.fn("agilerl.algorithms.ippo", "IPPO.preprocess_observation")
     src = ast.unparse(ip.node)
     ck.ob("C15.6", ip, ip.node, has_kw(src, 'observation_space', 'self.observation_space.get($agent_id)') and has(src, '$homo_id = self.get_homo_id($agent_id)') and has(src, '$preprocessed[$homo_id].append($_)')
           and has(src, 'concatenate_tensors($preprocessed[$homo_id])'), "IPPO: agents sharing a policy are prepared one by one with their own space and concatenated in agent order",
           construct="IPPO.preprocess_observation")
     sc = repo.fn(BASE, "MultiAgentRLAlgorithm.stack_critic_observations")
-    stacks = [c for c in calls_in(sc.node) if call_name(c) == "torch.stack"]
-    cats = [c for c in calls_in(sc.node) if call_name(c) == "torch.cat"]
-    ck.ob("C15.6", sc, sc.node, len(stacks) == 3 and len(cats) == 3, "Dict, Tuple and plain observation spaces each have an image branch and a vector branch", construct="stack_critic_observations branches")
-    for c in stacks:
-        ck.ob("C15.6", sc, c, const_value(get_kw(c, "dim")) == 2, "images of the agents are stacked on a new axis 2 (depth for 3-d convolutions)")
-    for c in cats:
-        ck.ob("C15.6", sc, c, const_value(get_kw(c, "dim")) == 1, "vector observations of the agents are concatenated on the feature axis")
-    cfg = CFG(sc.node)
-    for c in stacks:
-        g = [(ast.unparse(gg), pol) for gg, pol in _expr_guards(cfg, c)]
-        ck.ob("C15.6", sc, c, any("is_image_space" in t and pol for t, pol in g), "stacking is used exactly for image spaces", construct=f"stack guard {short(c, 50)}")
-    for c in cats:
-        g = [(ast.unparse(gg), pol) for gg, pol in _expr_guards(cfg, c)]
-        ck.ob("C15.6", sc, c, any("is_image_space" in t and not pol for t, pol in g), "concatenation is used exactly for non-image spaces", construct=f"cat guard {short(c, 50)}")
+    # the joining calls stack_critic_observations runs, in its own body or through a private helper, each under the guards that lead to it
+    sites = _join_sites(repo, sc)
+    def _case(g: List[Tuple[str, bool]]) -> str:
+        pos = [k for k in ("Dict", "Tuple") for t, pol in g if pol and "isinstance(" in t and f"spaces.{k}" in t]
+        neg = {k for k in ("Dict", "Tuple") for t, pol in g if not pol and "isinstance(" in t and f"spaces.{k}" in t}
+        return pos[0] if pos else ("plain" if neg == {"Dict", "Tuple"} else "?")
+    have = {(_case(g), nm) for nm, _, _, g in sites}
+    ck.ob("C15.6", sc, sc.node, all((k, nm) in have for k in ("Dict", "Tuple", "plain") for nm in ("torch.stack", "torch.cat")),
+          "Dict, Tuple and plain observation spaces each have an image branch and a vector branch", detail=f"found {sorted(have)}", construct="stack_critic_observations branches")
+    uniq: Dict[int, Tuple[str, ast.Call, Fn, List[List[Tuple[str, bool]]]]] = {}
+    for nm, c, f, g in sites:
+        uniq.setdefault(id(c), (nm, c, f, []))[3].append(g)
+    stacks = [x for x in uniq.values() if x[0] == "torch.stack"]
+    cats = [x for x in uniq.values() if x[0] == "torch.cat"]
+    for _, c, f, _ in stacks:
+        ck.ob("C15.6", f, c, const_value(get_kw(c, "dim")) == 2, "images of the agents are stacked on a new axis 2 (depth for 3-d convolutions)")
+    for _, c, f, _ in cats:
+        ck.ob("C15.6", f, c, const_value(get_kw(c, "dim")) == 1, "vector observations of the agents are concatenated on the feature axis")
+    for _, c, f, gs in stacks:
+        ck.ob("C15.6", f, c, all(any("is_image_space" in t and pol for t, pol in g) for g in gs), "stacking is used exactly for image spaces", construct=f"stack guard {short(c, 50)}")
+    for _, c, f, gs in cats:
+        ck.ob("C15.6", f, c, all(any("is_image_space" in t and not pol for t, pol in g) for g in gs), "concatenation is used exactly for non-image spaces", construct=f"cat guard {short(c, 50)}")
     src = ast.unparse(sc.node)
     ck.ob("C15.6", sc, sc.node, has(src, 'for $i in range(self.n_agents):\n    ...') and has(src, 'for $j in range(self.n_agents):\n    ...'), "members are gathered from every agent in agent order", construct="stack_critic_observations agent order")
 
@@ -896,4 +1093,29 @@ VARIANTS = [
     ("disassemble-comprehension-over-a-transposed-view-ok", _BF, _DIS, "            homo_ids = self.homogeneous_agents[unique_id]\n            n_homo = len(homo_ids)\n            by_env = np.swapaxes(np.reshape(homo_outputs[unique_id], (n_homo, vect_dim, -1)), 0, 1)\n"
      "            output_dict.update({homo_id: by_env[:, k] for k, homo_id in enumerate(homo_ids)})\n", "silent", None),
     ("shared-batch-stacked-then-merged-ok", _AUF, "        return torch.cat(tensors, dim=0)\n", "        return torch.stack(tensors, dim=0).flatten(0, 1)\n", "silent", None),
+    # ---- fourth round: guard clauses / fall-through defaults, ranks kept in locals, comprehensions, one private helper for a choice written three times
+    ('batch-dim-ranks-in-locals-early-returns-ok', _AUF, '    if len(obs.shape) == len(space_shape):\n        if isinstance(obs, np.ndarray):\n            obs = np.expand_dims(obs, 0)\n        else:\n            obs = obs.unsqueeze(0)\n    elif len(obs.shape) == len(space_shape) + 2:\n        if isinstance(obs, np.ndarray):\n            obs = obs.reshape(-1, *space_shape)\n        else:\n            obs = obs.view(-1, *space_shape)\n    elif len(obs.shape) != len(space_shape) + 1:\n        raise ValueError(\n            f"Expected observation to have {len(space_shape) + 1} dimensions, got {len(obs.shape)}."\n        )\n\n    return obs\n',
+     '    obs_ndim = len(obs.shape)\n    space_ndim = len(space_shape)\n    is_numpy = isinstance(obs, np.ndarray)\n    if obs_ndim == space_ndim:\n        return np.expand_dims(obs, 0) if is_numpy else obs.unsqueeze(0)\n    if obs_ndim == space_ndim + 2:\n        return obs.reshape(-1, *space_shape) if is_numpy else obs.view(-1, *space_shape)\n    if obs_ndim != space_ndim + 1:\n        raise ValueError(f"Expected observation to have {space_ndim + 1} dimensions, got {obs_ndim}.")\n\n    return obs\n', 'silent', None),
+    ('batch-dim-early-returns-cases-swapped', _AUF, '    if len(obs.shape) == len(space_shape):\n        if isinstance(obs, np.ndarray):\n            obs = np.expand_dims(obs, 0)\n        else:\n            obs = obs.unsqueeze(0)\n    elif len(obs.shape) == len(space_shape) + 2:\n        if isinstance(obs, np.ndarray):\n            obs = obs.reshape(-1, *space_shape)\n        else:\n            obs = obs.view(-1, *space_shape)\n    elif len(obs.shape) != len(space_shape) + 1:\n        raise ValueError(\n            f"Expected observation to have {len(space_shape) + 1} dimensions, got {len(obs.shape)}."\n        )\n\n    return obs\n',
+     '    obs_ndim = len(obs.shape)\n    space_ndim = len(space_shape)\n    is_numpy = isinstance(obs, np.ndarray)\n    if obs_ndim == space_ndim:\n        return obs.reshape(-1, *space_shape) if is_numpy else obs.view(-1, *space_shape)\n    if obs_ndim == space_ndim + 2:\n        return np.expand_dims(obs, 0) if is_numpy else obs.unsqueeze(0)\n    if obs_ndim != space_ndim + 1:\n        raise ValueError(f"Expected observation to have {space_ndim + 1} dimensions, got {obs_ndim}.")\n\n    return obs\n', 'fire', 'C15.5'),
+    ('batch-dim-early-returns-no-reject-of-lower-ranks', _AUF, '    if len(obs.shape) == len(space_shape):\n        if isinstance(obs, np.ndarray):\n            obs = np.expand_dims(obs, 0)\n        else:\n            obs = obs.unsqueeze(0)\n    elif len(obs.shape) == len(space_shape) + 2:\n        if isinstance(obs, np.ndarray):\n            obs = obs.reshape(-1, *space_shape)\n        else:\n            obs = obs.view(-1, *space_shape)\n    elif len(obs.shape) != len(space_shape) + 1:\n        raise ValueError(\n            f"Expected observation to have {len(space_shape) + 1} dimensions, got {len(obs.shape)}."\n        )\n\n    return obs\n',
+     '    obs_ndim = len(obs.shape)\n    space_ndim = len(space_shape)\n    is_numpy = isinstance(obs, np.ndarray)\n    if obs_ndim == space_ndim:\n        return np.expand_dims(obs, 0) if is_numpy else obs.unsqueeze(0)\n    if obs_ndim == space_ndim + 2:\n        return obs.reshape(-1, *space_shape) if is_numpy else obs.view(-1, *space_shape)\n    if obs_ndim > space_ndim + 2:\n        raise ValueError(f"Expected observation to have {space_ndim + 1} dimensions, got {obs_ndim}.")\n\n    return obs\n', 'fire', 'C15.5'),
+    ('vect-dim-leaf-kinds-as-fall-through-with-locals-ok', _AUF, '    elif isinstance(observation_space, spaces.MultiBinary):\n        return (\n            observation.shape[0]\n            if len(observation.shape) > len(observation_space.shape)\n            else 1\n        )\n    else:\n        array_shape = observation.shape\n        return array_shape[0] if len(array_shape) > len(observation_space.shape) else 1\n',
+     '\n    obs_shape = observation.shape\n    space_ndim = len(observation_space.shape)\n    return obs_shape[0] if len(obs_shape) > space_ndim else 1\n', 'silent', None),
+    ('vect-dim-fall-through-rank-from-a-helper', _AUF, '    elif isinstance(observation_space, spaces.MultiBinary):\n        return (\n            observation.shape[0]\n            if len(observation.shape) > len(observation_space.shape)\n            else 1\n        )\n    else:\n        array_shape = observation.shape\n        return array_shape[0] if len(array_shape) > len(observation_space.shape) else 1\n',
+     '\n    obs_shape = observation.shape\n    space_ndim = len(get_space_shape(observation_space))\n    return obs_shape[0] if len(obs_shape) > space_ndim else 1\n', 'fire', 'C15.5'),
+    ('vect-dim-fall-through-rank-local-holds-the-shape', _AUF, '    elif isinstance(observation_space, spaces.MultiBinary):\n        return (\n            observation.shape[0]\n            if len(observation.shape) > len(observation_space.shape)\n            else 1\n        )\n    else:\n        array_shape = observation.shape\n        return array_shape[0] if len(array_shape) > len(observation_space.shape) else 1\n',
+     '\n    obs_shape = observation.shape\n    space_ndim = observation_space.shape\n    return obs_shape[0] if len(obs_shape) > space_ndim else 1\n', 'fire', 'C15.2'),
+    ('vect-dim-fall-through-rejects-the-other-leaf-kinds', _AUF, '    else:\n        array_shape = observation.shape\n        return array_shape[0] if len(array_shape) > len(observation_space.shape) else 1\n',
+     '    raise TypeError(f"Unsupported space type: {type(observation_space)}")\n', 'fire', 'C15.1'),
+    ('agents-prepared-by-dict-comprehension-ok', _BF, '        preprocessed = {}\n        for agent_id, obs in observation.items():\n            preprocessed[agent_id] = preprocess_observation(\n                observation=obs,\n                observation_space=self.observation_space.get(agent_id),\n                device=self.device,\n                normalize_images=self.normalize_images,\n            )\n\n        return preprocessed\n',
+     '        return {\n            agent_id: preprocess_observation(\n                observation=agent_obs,\n                observation_space=self.observation_space.get(agent_id),\n                device=self.device,\n                normalize_images=self.normalize_images,\n            )\n            for agent_id, agent_obs in observation.items()\n        }\n', 'silent', None),
+    ('agents-comprehension-pairs-ids-with-values-by-position', _BF, '        preprocessed = {}\n        for agent_id, obs in observation.items():\n            preprocessed[agent_id] = preprocess_observation(\n                observation=obs,\n                observation_space=self.observation_space.get(agent_id),\n                device=self.device,\n                normalize_images=self.normalize_images,\n            )\n\n        return preprocessed\n',
+     '        return {\n            agent_id: preprocess_observation(\n                observation=agent_obs,\n                observation_space=self.observation_space.get(agent_id),\n                device=self.device,\n                normalize_images=self.normalize_images,\n            )\n            for agent_id, agent_obs in zip(self.agent_ids, observation.values())\n        }\n', 'fire', 'C15.6'),
+    ('critic-join-choice-in-one-private-helper-ok', _BF, '        obs = list(obs.values())\n        if isinstance(self.single_space, spaces.Dict):\n            processed_obs = {}\n            for key, space in self.single_space.spaces.items():\n                if is_image_space(space):\n                    processed_obs[key] = torch.stack(\n                        [obs[i][key] for i in range(self.n_agents)], dim=2\n                    )\n                else:\n                    processed_obs[key] = torch.cat(\n                        [obs[i][key] for i in range(self.n_agents)], dim=1\n                    )\n\n        elif isinstance(self.single_space, spaces.Tuple):\n            processed_obs = []\n            for i, space in enumerate(self.single_space):\n                if is_image_space(space):\n                    processed_obs.append(\n                        torch.stack([obs[j][i] for j in range(self.n_agents)], dim=2)\n                    )\n                else:\n                    processed_obs.append(\n                        torch.cat([obs[j][i] for j in range(self.n_agents)], dim=1)\n                    )\n            processed_obs = tuple(processed_obs)\n\n        elif is_image_space(self.single_space):\n            processed_obs = torch.stack(obs, dim=2)\n        else:\n            processed_obs = torch.cat(obs, dim=1)\n\n        return processed_obs\n',
+     '        obs = list(obs.values())\n        if isinstance(self.single_space, spaces.Dict):\n            return {\n                key: self._join([obs[i][key] for i in range(self.n_agents)], space)\n                for key, space in self.single_space.spaces.items()\n            }\n\n        if isinstance(self.single_space, spaces.Tuple):\n            return tuple(\n                self._join([obs[j][i] for j in range(self.n_agents)], space)\n                for i, space in enumerate(self.single_space)\n            )\n\n        return MultiAgentRLAlgorithm._join(obs, self.single_space)\n\n    @staticmethod\n    def _join(tensors, space):\n        if is_image_space(space):\n            return torch.stack(tensors, dim=2)\n\n        return torch.cat(tensors, dim=1)\n', 'silent', None),
+    ('critic-join-helper-arms-swapped', _BF, '        obs = list(obs.values())\n        if isinstance(self.single_space, spaces.Dict):\n            processed_obs = {}\n            for key, space in self.single_space.spaces.items():\n                if is_image_space(space):\n                    processed_obs[key] = torch.stack(\n                        [obs[i][key] for i in range(self.n_agents)], dim=2\n                    )\n                else:\n                    processed_obs[key] = torch.cat(\n                        [obs[i][key] for i in range(self.n_agents)], dim=1\n                    )\n\n        elif isinstance(self.single_space, spaces.Tuple):\n            processed_obs = []\n            for i, space in enumerate(self.single_space):\n                if is_image_space(space):\n                    processed_obs.append(\n                        torch.stack([obs[j][i] for j in range(self.n_agents)], dim=2)\n                    )\n                else:\n                    processed_obs.append(\n                        torch.cat([obs[j][i] for j in range(self.n_agents)], dim=1)\n                    )\n            processed_obs = tuple(processed_obs)\n\n        elif is_image_space(self.single_space):\n            processed_obs = torch.stack(obs, dim=2)\n        else:\n            processed_obs = torch.cat(obs, dim=1)\n\n        return processed_obs\n',
+     '        obs = list(obs.values())\n        if isinstance(self.single_space, spaces.Dict):\n            return {\n                key: self._join([obs[i][key] for i in range(self.n_agents)], space)\n                for key, space in self.single_space.spaces.items()\n            }\n\n        if isinstance(self.single_space, spaces.Tuple):\n            return tuple(\n                self._join([obs[j][i] for j in range(self.n_agents)], space)\n                for i, space in enumerate(self.single_space)\n            )\n\n        return MultiAgentRLAlgorithm._join(obs, self.single_space)\n\n    @staticmethod\n    def _join(tensors, space):\n        if not is_image_space(space):\n            return torch.stack(tensors, dim=2)\n\n        return torch.cat(tensors, dim=1)\n', 'fire', 'C15.6'),
+    ('critic-join-helper-bypassed-for-tuple-members', _BF, '        obs = list(obs.values())\n        if isinstance(self.single_space, spaces.Dict):\n            processed_obs = {}\n            for key, space in self.single_space.spaces.items():\n                if is_image_space(space):\n                    processed_obs[key] = torch.stack(\n                        [obs[i][key] for i in range(self.n_agents)], dim=2\n                    )\n                else:\n                    processed_obs[key] = torch.cat(\n                        [obs[i][key] for i in range(self.n_agents)], dim=1\n                    )\n\n        elif isinstance(self.single_space, spaces.Tuple):\n            processed_obs = []\n            for i, space in enumerate(self.single_space):\n                if is_image_space(space):\n                    processed_obs.append(\n                        torch.stack([obs[j][i] for j in range(self.n_agents)], dim=2)\n                    )\n                else:\n                    processed_obs.append(\n                        torch.cat([obs[j][i] for j in range(self.n_agents)], dim=1)\n                    )\n            processed_obs = tuple(processed_obs)\n\n        elif is_image_space(self.single_space):\n            processed_obs = torch.stack(obs, dim=2)\n        else:\n            processed_obs = torch.cat(obs, dim=1)\n\n        return processed_obs\n',
+     '        obs = list(obs.values())\n        if isinstance(self.single_space, spaces.Dict):\n            return {\n                key: self._join([obs[i][key] for i in range(self.n_agents)], space)\n                for key, space in self.single_space.spaces.items()\n            }\n\n        if isinstance(self.single_space, spaces.Tuple):\n            return tuple(\n                torch.cat([obs[j][i] for j in range(self.n_agents)], dim=1)\n                for i, space in enumerate(self.single_space)\n            )\n\n        return MultiAgentRLAlgorithm._join(obs, self.single_space)\n\n    @staticmethod\n    def _join(tensors, space):\n        if is_image_space(space):\n            return torch.stack(tensors, dim=2)\n\n        return torch.cat(tensors, dim=1)\n', 'fire', 'C15.6'),
 ]
